@@ -145,7 +145,13 @@ struct Merged {
 }
 
 fn binary_for(profile: &str) -> String {
-    format!("{}/{}/hx", bin_dir(), if profile == "dbg" { "dbg" } else { "release" })
+    // the two profiles are built into separate target directories so that they can be built in
+    // parallel (one cargo process holds a lock on its target directory)
+    if profile == "dbg" {
+        format!("{}/dbg-build/dbg/hx", bin_dir())
+    } else {
+        format!("{}/release/hx", bin_dir())
+    }
 }
 
 struct Unit {
@@ -171,6 +177,12 @@ pub fn check(property: &str, tier: Tier) -> i32 {
             queue.push_back(Unit { job: ji, unit: u });
             total += 1;
         }
+    }
+    // jobs with few (hence usually large) units first, the many small units fill the tail
+    {
+        let mut v: Vec<Unit> = queue.drain(..).collect();
+        v.sort_by_key(|u| plan.jobs[u.job].units);
+        queue.extend(v);
     }
     let merged = Arc::new(Mutex::new(Merged {
         units_total: total,
